@@ -644,8 +644,101 @@ fn c08_shoot(net: &mut Net<Frame>, before: &str, source: &str, data: &[u8]) -> R
     c08::shoot(net, before, source, data, false)
 }
 
+// ---------- (D) recorded handshakes replayed by a party that holds no key ----------
+
+#[derive(Serialize, Deserialize, Clone, Debug)]
+pub struct ReplayedHandshakeCase {
+    /// all nodes allow unencrypted operation ("plain") / default ciphers
+    pub plain: bool,
+    /// seconds between the genuine handshake and the replay
+    pub after: usize,
+    /// which recorded datagrams are replayed, in order: "ping,peng", "ping", "peng", "ping,ping,peng", "ping,pong,peng"
+    pub what: String,
+    /// the replaying party's address: "unknown" (never seen) or "absent" (an address the node once dialled in vain)
+    pub from: String,
+}
+
+/// A complete genuine handshake (node 1 dials node 0) is recorded; later a party WITHOUT any key sends the recorded
+/// datagrams to node 0 from its own address. Possession of a key is proved by what a party can do with FRESH material of the
+/// other end, never by bytes anybody can copy: no peer, route or reply-worthy session may result.
+pub fn run_replayed_handshake(c: &ReplayedHandshakeCase) -> CaseResult {
+    let mut net = Net::<Frame>::new();
+    net.capture = Some(vec![]);
+    for _ in 0..2 {
+        let mut cfg = base_config(crate::types::Mode::Switch, crate::device::Type::Tap, 0, &[0]);
+        if c.plain {
+            cfg.crypto.algorithms = vec!["plain".to_string()];
+        }
+        net.add_node(&cfg, false);
+    }
+    let a = net.addrs.clone();
+    net.connect(1, a[0]);
+    net.deliver_all(256);
+    if !net.fully_meshed() {
+        return Err(Fail::new("no_mesh", "set-up handshake failed"));
+    }
+    net.run(c.after);
+    let cap = net.capture.clone().unwrap();
+    let find = |stage: u8| cap.iter().find(|w| w.from == a[1] && w.to == a[0] && w.data.first() == Some(&0xff) && w.data.len() > 12 && w.data[12] == stage).map(|w| w.data.clone());
+    let pong_of_victim = cap.iter().find(|w| w.from == a[0] && w.data.first() == Some(&0xff) && w.data.len() > 12 && w.data[12] == 2).map(|w| w.data.clone());
+    let (ping, peng) = match (find(1), find(3)) {
+        (Some(x), Some(y)) => (x, y),
+        _ => return Err(Fail::new("harness_capture", "recorded handshake incomplete")),
+    };
+    let outsider = addr_of(777);
+    if c.from == "absent" {
+        net.connect(0, outsider);
+        net.run(125); // the dial runs out of retries
+    }
+    let peers_before: Vec<_> = net.nodes[0].verif_peers().iter().map(|p| p.addr).collect();
+    for what in c.what.split(',') {
+        let d = match what {
+            "ping" => ping.clone(),
+            "peng" => peng.clone(),
+            "pong" => match &pong_of_victim {
+                Some(p) => p.clone(),
+                None => continue,
+            },
+            _ => panic!("what"),
+        };
+        util::catch(|| net.inject(0, outsider, d)).map_err(|p| Fail::from_panic(&p))?;
+        // what node 0 answers goes to the outsider's address (nobody there)
+        net.deliver_all(64);
+    }
+    let peers_after: Vec<_> = net.nodes[0].verif_peers().iter().map(|p| p.addr).collect();
+    if peers_after.contains(&outsider) {
+        return Err(Fail::new("peer_without_proof", format!("replaying the recorded datagrams [{}] from {} made that address a peer of node 0 (peers before: {:?})", c.what, outsider, peers_before))
+            .with("plain", c.plain)
+            .with("what", c.what.clone()));
+    }
+    // and the genuine connection is untouched
+    if !net.fully_meshed() {
+        return Err(Fail::new("genuine_peer_lost", "the replay cost node 0 its genuine peer").with("plain", c.plain));
+    }
+    // a frame flooded by node 0 goes to its one genuine peer only
+    net.queue.clear();
+    net.put_frame(0, eth_frame([0xff; 6], [2, 0, 0, 0, 0, 1], None, b"flooded after the replay")).map_err(|e| Fail::new("send_error", format!("{}", e)))?;
+    let to: Vec<_> = net.queue.iter().map(|w| w.to).collect();
+    if to != vec![a[1]] {
+        return Err(Fail::new("payload_to_outsider", format!("a flooded frame went to {:?}", to)).with("plain", c.plain));
+    }
+    Ok(1 + c.plain as u64)
+}
+
 pub fn run(ctx: &Ctx) {
     let tier = ctx.tier;
+    // (D)
+    let mut rh = vec![];
+    for plain in [false, true] {
+        for after in [0usize, 2, 61, 130] {
+            for what in ["ping,peng", "ping", "peng", "ping,ping,peng", "ping,pong,peng", "peng,ping,peng"] {
+                for from in ["unknown", "absent"] {
+                    rh.push(ReplayedHandshakeCase { plain, after, what: what.to_string(), from: from.to_string() });
+                }
+            }
+        }
+    }
+    sweep_list(ctx, "replayed_handshake", &rh, SweepOpts { chunk: 1, ..Default::default() }, run_replayed_handshake);
     // (A)
     let parts = 4;
     let mut batches = vec![];
@@ -699,6 +792,7 @@ pub fn replay(family: &str, case: &Value) -> Option<CaseResult> {
         "forged_object" => replay_with::<ObjCase>(case, run_obj),
         "forged_object_batches" => replay_with::<StageBatch>(case, |b| run_stage_batch(b, Tier::Thorough, None)),
         "trust_graphs" => replay_with::<TrustCase>(case, run_trust),
+        "replayed_handshake" => replay_with::<ReplayedHandshakeCase>(case, run_replayed_handshake),
         "forged_node_batches" => replay_with::<NodeBatch>(case, |b| run_node_batch(b, Tier::Thorough, None)),
         "forged_node" => {
             let b = NodeBatch { state: case["state"].as_str()?.to_string(), source: case["source"].as_str()?.to_string() };
